@@ -431,6 +431,16 @@ func genSignGrid(r *rng, nmax int, p func(string, ...any)) {
 			}
 		}
 	}
+	// many signers: sign, encode, decode, verify
+	for _, n := range []int{15, 16, 17, 23, 24, 25, 40} {
+		sigs, ss := []string{}, []string{}
+		for i := 0; i < n; i++ {
+			sigs = append(sigs, "cs("+hdk(i)+";-)")
+			ss = append(ss, fmt.Sprintf("T:%d:%d", algk(i), i%200+1))
+		}
+		p("sm SM(H(-;{};-;{});0102;[%s]) - [%s] [%s] a", strings.Join(sigs, ","), strings.Join(ss, ","), strings.Join(ss, ","))
+		p("sm SM(H(-;{};-;{});0102;[%s]) 01 [%s] [%s] d", strings.Join(sigs, ","), strings.Join(ss, ","), strings.Join(ss, ","))
+	}
 	p("enc sm SM(H(-;{};-;{});0102;[])")
 	p("enc sm SM(H(-;{};-;{});0102;-)")
 	for n := 0; n <= 6; n++ {
@@ -936,6 +946,28 @@ func genEncGrid(p func(string, ...any)) {
 		p("enc uh %s", m)
 		p("s1 t S1(H(-;%s;-;%s);00;-) 01 T:-7:1 T:-7:1 a", m, m)
 		p("enc key K(1;-;-8;-;-;{i64:-1=c:6,i64:-2=b:%s,%s})", strings.Repeat("33", 32), strings.Join(parts, ","))
+	}
+	// Go time.Time values (the encoder writes them as untagged epoch integers) and arrays longer
+	// than any small limit, in either bucket and inside a signer slot: always decodable
+	for _, v := range []string{"tm:1700000000", "tm:0", "tm:-1", "[tm:1700000000,i64:1]", "{i64:1=tm:1700000000}"} {
+		p("enc ph {i64:1=a:-7,i64:99=%s}", v)
+		p("enc uh {i64:99=%s}", v)
+		p("enc s1 S1(H(-;{i64:1=a:-7};-;{i64:99=%s});00;01)", v)
+		p("enc sm SM(H(-;{};-;{i64:99=%s});00;[cs(H(-;{i64:1=a:-7};-;{i64:98=%s});01)])", v, v)
+		p("s1 t S1(H(-;{i64:1=a:-7,i64:99=%s};-;{i64:98=%s});00;-) - T:-7:1 T:-7:1 a", v, v)
+	}
+	for _, n := range []int{16, 17, 23, 24, 25, 100, 255, 256, 257} {
+		items := make([]string, n)
+		for i := range items {
+			items[i] = fmt.Sprintf("b:%02x", i%256)
+		}
+		arr := "[" + strings.Join(items, ",") + "]"
+		p("enc uh {i64:33=%s}", arr)
+		p("enc ph {i64:1=a:-7,i64:33=%s}", arr)
+		p("s1 t S1(H(-;{i64:1=a:-7};-;{i64:33=%s});00;-) - T:-7:1 T:-7:1 a", arr)
+		p("s1 u S1(H(-;{i64:1=a:-7};-;{i64:33=%s});00;-) 01 T:-7:1 T:-7:1 d", arr)
+		p("sm SM(H(-;{};-;{i64:33=%s});00;[cs(H(-;{i64:1=a:-7};-;{i64:33=%s});-)]) - [T:-7:1] [T:-7:1] a", arr, arr)
+		p("cs full s1 p val:S1(H(-;{i64:1=a:-7};-;{i64:33=%s});00;01) H(-;{i64:1=a:-7};-;{i64:33=%s}) - T:-7:1 T:-7:1", arr, arr)
 	}
 	// parameters that name a common label (1..5) in every Go spelling, with the field also set:
 	// whatever the encoder decides, it decides it the same way on every call and emits no duplicate
